@@ -642,7 +642,11 @@ struct timespec __wrap_nsync_time_now (void) { return (mode_b ? vnow () : real_n
 struct timespec wrap_cpp_time_now (void) __asm__ ("__wrap__ZN5nsync14nsync_time_nowEv");
 struct timespec wrap_cpp_time_now (void) { return (mode_b ? vnow () : real_now ()); }
 struct timespec rt_now (void) { return (mode_b ? vnow () : real_now ()); }
-int64_t rt_ts_ns (struct timespec t) { return ((int64_t) t.tv_sec * 1000000000ll + t.tv_nsec); }
+int64_t rt_ts_ns (struct timespec t) {   /* saturating */
+	if ((int64_t) t.tv_sec > INT64_MAX / 1000000000ll - 1) return (INT64_MAX);
+	if ((int64_t) t.tv_sec < INT64_MIN / 1000000000ll + 1) return (INT64_MIN);
+	return ((int64_t) t.tv_sec * 1000000000ll + t.tv_nsec);
+}
 int64_t rt_now_ns (void) { return (rt_ts_ns (rt_now ())); }
 struct timespec rt_deadline_in (int64_t ns) { int64_t v = rt_now_ns () + ns; struct timespec t; t.tv_sec = (time_t) (v / 1000000000ll); t.tv_nsec = (long) (v % 1000000000ll); if (t.tv_nsec < 0) { t.tv_nsec += 1000000000l; t.tv_sec--; } return (t); }
 
